@@ -372,8 +372,11 @@ def determinism_selftest(farm, mod, prop, tier, batch_seed, harness_errors, n=16
     rep = {"seeds": n, "passes": 2, "mismatches": len(mismatches), "digest": digest([a.get(i) for i in range(n)])}
     if cross:
         env = dict(os.environ, VERIF_HASHSEED="12345", VERIF_WORKERS="4", VERIF_SEED=str(batch_seed))
-        p = subprocess.run([sys.executable, os.path.join(VERIF, "sim", "main.py"), "--digests", prop, tier, str(n)],
-                           capture_output=True, text=True, env=env, timeout=1800)
+        try:
+            p = subprocess.run([sys.executable, os.path.join(VERIF, "sim", "main.py"), "--digests", prop, tier, str(n)],
+                               capture_output=True, text=True, env=env, timeout=2400)
+        except subprocess.TimeoutExpired as e:  # a harness error like any other: the check still finishes and reports
+            p = subprocess.CompletedProcess(e.cmd, 124, stdout="", stderr="timed out after %ss" % e.timeout)
         try:
             c = json.loads(p.stdout.strip().splitlines()[-1])
             c = {int(k): v for k, v in c.items()}
@@ -390,14 +393,21 @@ def determinism_selftest(farm, mod, prop, tier, batch_seed, harness_errors, n=16
 
 def digests_only(prop, tier, n, batch_seed, workers):
     mod = load(prop)
+    errs = []
+    cfg = dict(mod.TIERS[tier])
+    cfg["cold_check"] = False  # (the cold-interpreter cross-check belongs to the main batch, not to the digest run)
+    ctx = None
+    if hasattr(mod, "prepare"):
+        # the reference table is built with all cores; the RUNS are what is repeated with another worker count and hash seed
+        prep = farm_mod.Farm(make_handler(mod), int(os.environ.get("VERIF_PREP_WORKERS", "16")))
+        try:
+            ctx = mod.prepare(prep, batch_seed, tier, cfg, errs)
+        finally:
+            prep.close()
     farm = farm_mod.Farm(make_handler(mod), workers)
     try:
-        errs = []
-        cfg = dict(mod.TIERS[tier])
-        if hasattr(mod, "prepare"):
-            ctx = mod.prepare(farm, batch_seed, tier, cfg, errs)
-            if ctx is not None:
-                farm.set_context(ctx)
+        if ctx is not None:
+            farm.set_context(ctx)
         jobs = [{"kind": "run", "index": i, "tier": tier, "seed": derive_seed(batch_seed, prop, i), "batch_seed": batch_seed} for i in range(n)]
         out = {}
         for job, res in farm.run(jobs, mod.RUN_TIMEOUT * 2):
